@@ -69,16 +69,16 @@ func genStream(r *Rng, mk func(i int) []byte) ([]byte, string) {
 		frames[k] = nil
 		return join(), "empty-frame"
 	case 5: // valid size, garbage body
-		frames[k] = r.Bytes(r.Intn(40))
+		frames[k] = tameHead(r.Bytes(r.Intn(40)))
 		return join(), "garbage-body"
 	case 6: // one byte in front of an otherwise well-formed frame (the rest of the frame is a well-formed request)
 		frames[k] = append([]byte{byte(r.Pick(1, 1, 2, 0x80, 0xff, 0))}, frames[k]...)
 		return join(), "prefixed-byte"
 	case 7: // a well-formed request glued behind garbage inside ONE frame
-		frames[k] = append(r.Bytes(1+r.Intn(12)), frames[k]...)
+		frames[k] = append(tameHead(r.Bytes(1+r.Intn(12))), frames[k]...)
 		return join(), "garbage-then-request"
 	case 8: // trailing bytes behind a well-formed request inside the frame
-		frames[k] = append(frames[k], r.Bytes(1+r.Intn(12))...)
+		frames[k] = append(frames[k], tameHead(r.Bytes(1+r.Intn(12)))...)
 		return join(), "request-then-garbage"
 	case 9: // headers without an op id / with an op id that is not a number
 		frames[k] = mutateOpID(r, frames[k])
@@ -166,15 +166,27 @@ func marshalSorted(m map[string]string) []byte {
 	return append(append([]byte{0}, be32(uint32(len(body)))...), body...)
 }
 
-// tameAlloc keeps `readHeader`'s `make([]byte, size)` small wherever a header block may start: a zero
-// byte (the version) followed by a 4-byte size above 64 MiB gets the top byte of the size cleared. The
-// stream path allocates the declared header size before reading it (up to 2 GiB for 5 bytes received:
-// reported in the evidence of c05pure, not a crash); here thousands of streams are run per check.
+// tameAlloc keeps `readHeader`'s `make([]byte, size)` small where a header block starts: at the start of
+// every frame of the stream (sequential split by the size prefixes) a version byte 0 followed by a 4-byte
+// header size above 64 MiB gets the top byte of that size cleared. The stream path allocates the declared
+// header size before reading it (up to 2 GiB for 5 bytes received: sampled and reported in the evidence by
+// c05pure, not a crash); here thousands of streams are run per check.
 func tameAlloc(s []byte) []byte {
-	for i := 0; i+1 < len(s); i++ {
-		if s[i] == 0 && s[i+1] >= 0x04 && s[i+1] < 0x80 {
-			s[i+1] = 0
+	for p := 0; p+4 <= len(s); {
+		n := int(uint32(s[p])<<24 | uint32(s[p+1])<<16 | uint32(s[p+2])<<8 | uint32(s[p+3]))
+		if n > framedMax {
+			break
 		}
+		tameHead(s[p+4:])
+		p += 4 + n
 	}
 	return s
+}
+
+// tameHead does the same for one byte string that may be read as a header block.
+func tameHead(g []byte) []byte {
+	if len(g) >= 2 && g[0] == 0 && g[1] >= 0x04 && g[1] < 0x80 {
+		g[1] = 0
+	}
+	return g
 }
